@@ -12,8 +12,14 @@ use serde_json::Value;
 pub struct Rng(pub u64);
 
 impl Rng {
+    /// The state is the seed passed once through the output mixer: with the plain SplitMix64
+    /// initialisation `seed * G + c` the stream of `seed + 1` is the stream of `seed` shifted by one
+    /// position, so neighbouring seeds (VERIF_SEED=0/1, per-call sub-streams `seed ^ i`) were not
+    /// independent.
     pub fn new(seed: u64) -> Self {
-        Rng(seed.wrapping_mul(0x9E37_79B9_7F4A_7C15).wrapping_add(0x1234_5678_9ABC_DEF1))
+        let mut r = Rng(seed.wrapping_mul(0x9E37_79B9_7F4A_7C15).wrapping_add(0x1234_5678_9ABC_DEF1));
+        let s = r.next();
+        Rng(s)
     }
     pub fn next(&mut self) -> u64 {
         self.0 = self.0.wrapping_add(0x9E37_79B9_7F4A_7C15);
